@@ -68,6 +68,22 @@ claim("C09",
       "Coq proof (totality, closed form of the exit decision, characterisation of a failing entry) + lockstep mutation correspondence + independent directory-hash oracle",
       "DESIGN.md 3 C09")
 
+claim("C06",
+      "Theorems, for every content type and digest function: the history value one commit writes is after_commit (old files ++ [new manifest], old chain ++ [new entry]) and the new number is latest+1 with increment 1 (obligation on the regenerated constant); on a well-formed history (manifests 1..n, chain lists exactly them in order, every entry carries its manifest's digest) a commit yields number n+1, keeps every existing manifest (the old list is a prefix), keeps all earlier chain entries unchanged and in order, appends exactly one entry with the new manifest's number and digest, and the result is well-formed again -- hence, by induction, after ANY sequence of commits from the empty history; reloading yields generations 1..n ascending, and ascending for any order of the files in the folder. Tied to the code by lockstep runs of 2-12 create / create -sf runs (real clock, several per second, exits 0/10/11) with edits, flat and nested, and an oracle that takes the c4 of every manifest's bytes and the parsed chain from disk before/after every run.",
+      "PARTIAL: the manifest file NAME (NNNN_<folder>_<UTC time>Z.mhl) is not modelled; naming, zero padding and the UTC stamp are checked on the implementation by the oracle only. That create reaches commit for exactly the histories in scope is C08.",
+      "Coq proof (invariant preserved by commit, induction over commit sequences, verified sort) + lockstep correspondence + on-disk chain/manifest oracle",
+      "DESIGN.md 3 C06")
+claim("C13",
+      "Listing order -- theorems: the traversal, the directory hashes, the discovery of nested histories (hence the order of references) and the order of loaded generations are each independent of the enumeration order of a folder (permutation of the children with distinct names gives the same result; verified sort with distinct keys). Location -- theorem: a command run at a folder computes its result from that sub-tree alone (patterns are matched on root-relative paths), so two placements of the same sub-tree give the same observation up to the path prefix. Tied to the code by metamorphic runs of the real tool under a frozen clock with equalised mtimes: the same command sequence (incl. nested child histories) at a reference location vs under parents named ascmhl / ascmhl/nested / matching the user's own pattern, with trailing slash, by relative path, as ./r/, and with os.listdir/os.scandir reversed and shuffled -- every file of every ascmhl folder byte-identical; relocated copies verify and diff with exit 0; the reference run is also compared with the extracted model.",
+      "PARTIAL: the location half is nearly definitional in the model (it has no absolute paths); its assurance comes from the metamorphic runs, which sample locations and permutations.",
+      "Coq proof (permutation invariance through a verified key sort, sub-tree locality) + metamorphic byte-comparison runs of the implementation + lockstep correspondence",
+      "DESIGN.md 3 C13")
+claim("C14",
+      "Theorems about the model's effect description: verify (all modes), diff, verify -dh, info, info -sf and flatten (w.r.t. the source) return the tree unchanged and an empty list of file-system operations for every input and outcome; a commit leaves the media tree (the tree with all ascmhl folders erased) unchanged, every operation it performs is the mkdir of a not-yet-existing ascmhl folder, the placement of a manifest or of the chain of a LOADED history, and generations are written only into loaded histories. Tied to the code, on every command of random command sequences (create folder/-sf/nested/-n/patterns, verify, verify -sf, verify -dh, verify -pl, diff, info, info -sf, hash, xsd-schema-check, flatten; any exit code): a full snapshot (type, bytes, mode, mtime) of tree and flatten destination before/after, and the Python audit events (open-for-write, mkdir, rename, remove, rmdir, utime, chmod, truncate, link, symlink, shutil.*) whose normalised sequence must equal the model's op list.",
+      "PARTIAL by nature: the theorem is about the model's op list; writes that raise no audit event would be invisible (none known: lxml does no file I/O here). hash and xsd-schema-check are not in the model (snapshot + audit only).",
+      "Coq proof (case analysis of the readers, fold invariant over commit with an erase-histories abstraction) + audit-event trace vs model op list + full before/after snapshots",
+      "DESIGN.md 3 C14")
+
 PENDING = "check under construction (planned: proof + correspondence, see DESIGN.md section 3)"
 
 
